@@ -423,7 +423,16 @@ impl St {
             }
             (St::M(m), Op::MIsEmpty) => bool_tok(m.is_empty()),
             (St::M(m), Op::MSnapVia(_)) => ints_tok(&m.iter().flat_map(|e| [e.0, e.1]).collect::<Vec<_>>()),
-            (St::M(m), Op::MEqTo(es)) => bool_tok(m.len() == es.len() && m.iter().all(|e| es.iter().any(|f| f == e))),
+            (St::M(m), Op::MEqTo(es)) => {
+                if m.len() != es.len() {
+                    bool_tok(false)
+                } else if es.len() <= 8 {
+                    bool_tok(m.iter().all(|e| es.iter().any(|f| f == e)))
+                } else {
+                    let h: HashMap<i64, i64> = es.iter().copied().collect();
+                    bool_tok(m.iter().all(|e| h.get(&e.0) == Some(&e.1)))
+                }
+            }
             _ => "bad-op".into(),
         }
     }
@@ -442,6 +451,7 @@ fn find_linearization(init: &St, progs: &[Vec<Op>], observed: &[Vec<String>], fi
         order: &mut Vec<usize>,
         dead: &mut HashSet<(Vec<usize>, St)>,
         budget: &mut u64,
+        started: std::time::Instant,
     ) -> bool {
         if pos.iter().zip(progs).all(|(p, pr)| *p == pr.len()) {
             return st.show() == fin;
@@ -450,6 +460,10 @@ fn find_linearization(init: &St, progs: &[Vec<Op>], observed: &[Vec<String>], fi
             return false;
         }
         *budget -= 1;
+        if *budget % 256 == 0 && started.elapsed().as_secs_f64() > 4.0 {
+            *budget = 0;
+            return false;
+        }
         if dead.contains(&(pos.clone(), st.clone())) {
             return false;
         }
@@ -460,7 +474,7 @@ fn find_linearization(init: &St, progs: &[Vec<Op>], observed: &[Vec<String>], fi
                 if r == observed[t][pos[t]] {
                     pos[t] += 1;
                     order.push(t);
-                    if go(&s2, pos, progs, observed, fin, order, dead, budget) {
+                    if go(&s2, pos, progs, observed, fin, order, dead, budget, started) {
                         return true;
                     }
                     order.pop();
@@ -479,7 +493,7 @@ fn find_linearization(init: &St, progs: &[Vec<Op>], observed: &[Vec<String>], fi
         St::M(m) => m.len() > 100,
     };
     let mut budget = if big { 20_000u64 } else { 2_000_000u64 };
-    if go(init, &mut pos, progs, observed, fin, &mut order, &mut dead, &mut budget) {
+    if go(init, &mut pos, progs, observed, fin, &mut order, &mut dead, &mut budget, std::time::Instant::now()) {
         Ok(Some(order))
     } else if budget == 0 {
         Err(())
